@@ -379,8 +379,8 @@ func (bm *blasMethod) runBase(t failer, c *Call, regs []*region, pairs bool, st 
 	slices := make([]reflect.Value, nops)
 	for k := range r.Ops {
 		nd[k] = need(c, k)
-		if nd[k] > maxElems {
-			panic("harness: operand larger than maxElems")
+		if nd[k]+2*padElems > regs[k].total {
+			panic("harness: operand larger than its region")
 		}
 		slices[k] = regs[k].slice(nd[k])
 	}
@@ -415,24 +415,29 @@ func (bm *blasMethod) runBase(t failer, c *Call, regs []*region, pairs bool, st 
 		reg.restore()
 	}
 
-	// 2. the same call with every operand on guard pages.
-	for _, atEnd := range []bool{true, false} {
+	// 2. the same call with every operand on guard pages: every combination of
+	// "ends exactly at a PROT_NONE page" (E) and "starts right after one" (S)
+	// per operand, so that an over-read of one operand is caught whatever
+	// alignment-dependent path the placement of the others selects.
+	for mask := 0; mask < 1<<nops; mask++ {
 		gin := append([]reflect.Value(nil), in...)
+		place := make([]byte, nops)
 		for k := range r.Ops {
+			atEnd := mask>>k&1 == 0
+			place[k] = 'S'
+			if atEnd {
+				place[k] = 'E'
+			}
 			gin[bm.pos[r.Ops[k].Name]] = getGuard(k).guardedSlice(bm.p, nd[k], atEnd, k)
 		}
 		_, e := invoke(bm.m, gin)
 		st.guard++
 		if o := classify(e, isBlasMsg); o.class != pcNone {
-			place := "ending at a PROT_NONE page"
-			if !atEnd {
-				place = "starting right after a PROT_NONE page"
-			}
 			cl := "valid-call-panics"
 			if o.class == pcFault {
 				cl = "memory-fault"
 			}
-			t.FailClass(cl, "%s with every operand %s: %s", bm.describe(gin), place, o)
+			t.FailClass(cl, "%s with the operands on guard pages (placement %s: E = slice ends at a PROT_NONE page, S = starts right after one): %s", bm.describe(gin), place, o)
 		}
 	}
 
